@@ -357,6 +357,23 @@ def r_dump_atomic(ctx):
             else:
                 ctx.violation('%s:tmp-dump-never-renamed' % m.qualname, m.loc(c), 'the temporary dump `%s` is never renamed onto the dump path atomically' % unparse(tt), instance=inst)
     ctx.require(n_w >= 2, 'dump writers not found')
+    # different writers (own compaction vs. incoming transfer) never share a temporary name
+    tmp_names = {}
+    for m in P.methods_of(S):
+        for d in U.walk_no_nested(m.node):
+            if isinstance(d, ast.Assign) and isinstance(d.value, ast.BinOp) and isinstance(d.value.op, ast.Add) and P.self_attr(d.value.left, m.self_name) == fname \
+                    and isinstance(d.value.right, ast.Constant):
+                tmp_names.setdefault(d.value.right.value, []).append((m, d))
+    inst = 'own dump and incoming transfer use different temporary files'
+    ctx.tick()
+    shared = [(k, v) for k, v in tmp_names.items() if len(set(m.name for m, d in v)) > 1]
+    if shared:
+        k, v = shared[0]
+        ctx.violation('Serializer:shared-temporary-dump-name', v[1][0].loc(v[1][1]),
+                      '%s and %s both write `<dump>%s`: a compaction between two chunks of an incoming snapshot renames the half-written transfer into place / the transfer scribbles '
+                      'into the fresh dump' % (v[0][0].qualname, v[1][0].qualname, k), instance=inst)
+    else:
+        ctx.ok(inst, '', 'suffixes %s' % sorted(tmp_names))
     # nobody else opens conf.fullDumpFile for writing
     others = 0
     for f in P.all_funcs():
@@ -388,6 +405,31 @@ def r_dump_atomic(ctx):
                               'the receiver reports a complete snapshot on a path that is not the last chunk / did not put the file in place', instance=inst)
             else:
                 ctx.ok(inst, stm.loc(n.ast), 'behind isLast and the rename / assignment of the assembled data')
+    # a chunk flagged "first" always restarts the reassembly (file re-opened for writing / buffer reset) before data is added
+    fv = None
+    for n in ast.walk(stm.node):
+        if isinstance(n, ast.Assign) and isinstance(n.targets[0], ast.Tuple) and len(n.targets[0].elts) == 3:
+            fv = n.targets[0].elts[1].id
+    if fv is not None:
+        restart = [n.id for n in cfg.nodes if n.kind == 'stmt' and n.ast is not None and (
+            any(isinstance(c, ast.Call) and isinstance(c.func, ast.Name) and c.func.id == 'open' and len(c.args) >= 2 and isinstance(c.args[1], ast.Constant) and 'w' in str(c.args[1].value)
+                for c in ast.walk(n.ast)) or
+            (isinstance(n.ast, ast.Assign) and P.self_attr(n.ast.targets[0], stm.self_name) and isinstance(n.ast.value, ast.Call) and unparse(n.ast.value.func) in ('bytes', 'bytearray')))]
+        adds_ = [n for n in cfg.nodes if n.kind == 'stmt' and n.ast is not None and (
+            any(isinstance(c, ast.Call) and isinstance(c.func, ast.Attribute) and c.func.attr == 'write' for c in ast.walk(n.ast)) or
+            (isinstance(n.ast, ast.AugAssign) and P.self_attr(n.ast.target, stm.self_name)))]
+        unpack = [n for n in cfg.nodes if n.kind == 'stmt' and isinstance(n.ast, ast.Assign) and isinstance(n.ast.targets[0], ast.Tuple) and len(n.ast.targets[0].elts) == 3]
+        start = [d for d, l in unpack[0].succ if not (isinstance(l, tuple) and l[0] == 'exc')][0]
+        r_first = ex.run(start=start, init=frozenset([('truthy', ex.tb.term(ast.Name(id=fv, ctx=ast.Load())), True)]), avoid=restart, follow_exc=False)
+        inst = 'a first chunk always restarts the reassembly'
+        ctx.tick()
+        hit = [n for n in adds_ if r_first.reached(n.id)]
+        if hit:
+            ctx.violation('Serializer.setTransmissionData:first-chunk-does-not-restart', stm.loc(hit[0].ast),
+                          'with the first-chunk flag set, data can be added to the reassembly without re-opening / resetting it: a transfer restarted after an interruption is appended '
+                          'to the partial one and a torn dump is renamed into place: %s' % r_first.path_str(hit[0].id, r_first.facts_at(hit[0].id)[0]), instance=inst)
+        else:
+            ctx.ok(inst, stm.loc(), 'no write/append reachable with isFirst set unless the temp file is re-opened or the buffer reset')
     ctx.expect_min(4)
 
 
